@@ -151,7 +151,7 @@ class Calls:
                 return [(st, None)]     # context.CancelFunc: no effect on the channel layer
             if f.ref is not None:
                 self.check_cond(fr, st, f.ref != NIL, "nil-func-call", ins)
-            return self.effect_call(st, "dyncall:" + (short(f.t) if f.t else "?"), args, rtypes, pos)
+            return self.effect_call(st, "dyn." + (short(f.t).rsplit("/", 1)[-1].rsplit(".", 1)[-1] if f.t and "func(" not in short(f.t) else "func"), args, rtypes, pos)
         raise Unsupported("call of %r" % (f,))
 
     def call_iface(self, fr, st, iface_t, mname, args, rtypes, pos, ins):
@@ -304,7 +304,10 @@ class Calls:
     def havoc_modifies(self, st, cl, names, fn, decl):
         from .speceval import SpecCtx
         ctx = SpecCtx(self, st, st, names, fr_pkg=(fn["pkg"] if fn else decl.pkg))
+        from .speceval import uses_trace
         for part in cl.extra["targets"]:
+            if uses_trace(part):
+                continue      # names an object through the callee's own trace: covered by the enclosing map's footprint
             try:
                 p = ctx.eval_addr(part)
             except Exception:
